@@ -76,6 +76,17 @@ fn validate_cases(b: &Base, r: Option<&LayoutRules>) -> Vec<Case> {
         p["log_n_steps"] = hexu(v);
         push(format!("log_n_steps{}", tag), "log_n_steps", p, b.log_trace);
     }
+    // the same power of two again: log_n_steps + ord(2), where ord(2) is the multiplicative order of 2 modulo p
+    // (2^(k + ord) = 2^k in the field although the integer k + ord is astronomically large)
+    {
+        let ord = crate::refm::zint::order_of_two();
+        for k in [1u32, 2] {
+            let v = crate::kit::b2f(&(num_bigint::BigUint::from(lns) + &ord * num_bigint::BigUint::from(k)));
+            let mut p = b.pi.clone();
+            p["log_n_steps"] = Value::String(fhex(&v));
+            push(format!("log_n_steps+{}*ord(2)", k), "log_n_steps", p, b.log_trace);
+        }
+    }
     for (tag, lt) in [("-1", b.log_trace.wrapping_sub(1)), ("+1", b.log_trace + 1)] {
         if lt != u64::MAX {
             push(format!("log_trace{}", tag), "log_trace", b.pi.clone(), lt);
